@@ -34,7 +34,7 @@ NAMES = ("a", "b")
 KINDS = ("p", "s", "r")
 # nest: "" both blocks at top level; "n" b nested inside a; "m" a nested inside b;
 # "N"/"M" the same but the nested block sits behind {% if k > 0 %}
-# wrap: "" / "f" (top-level blocks inside {% for %} over xs) / "i" (inside {% if k > 0 %})
+# wrap: "" / "f" (top-level blocks inside {% for %} over xs) / "i" (inside {% if k > 0 %}) / "c" (inside a capture that is printed)
 TIE = "ERR:TemplateInheritanceError"
 REQ = "ERR:RequiredBlockError"
 
@@ -146,6 +146,9 @@ def sources(spec, ns=""):
             body = "{% for q in xs %}" + body + "{% endfor %}"
         elif tp[4] == "i":
             body = "{% if k > 0 %}" + body + "{% endif %}"
+        elif tp[4] == "c":
+            # the blocks sit inside a capture whose text is written right after it (a transparent container)
+            body = "{% capture cap %}" + body + "{% endcapture %}{{ cap }}"
         if j == 1:
             src += "<" + body + ">{{ t }}"
         else:
@@ -422,6 +425,12 @@ CURATED = [
     ((tpl(E, O, wrap="f"), tpl(P, O)), None),
     ((tpl(E, E, wrap="i"), tpl(S, P)), None),
     ((tpl(E, O, wrap="i"), tpl(O, O), tpl(P, O)), None),
+    # blocks defined inside a capture block (root, middle, leaf)
+    ((tpl(P, P, wrap="c"), tpl(S, O)), None),
+    ((tpl(P, P), tpl(P, O, wrap="c"), tpl(O, O)), None),
+    ((tpl(P, P, "n"), tpl(O, P, wrap="c")), None),
+    ((tpl(P, O, wrap="c"), tpl(S, O, wrap="c"), tpl(S, O)), None),
+    ((tpl(P, P, "n", wrap="c"), tpl(S, S, wrap="c")), None),
     # required
     ((tpl(R, P), tpl(P, O)), None),
     ((tpl(R, P), tpl(O, P, junk=True)), None),      # not overridden
@@ -489,7 +498,7 @@ def family(thorough_len=4):
             nest = tp[2]
             if nest and rng.random() < 0.5:
                 nest = nest.upper()
-            ch.append((tp[0], tp[1], nest, False, rng.choice(("", "", "f", "i"))))
+            ch.append((tp[0], tp[1], nest, False, rng.choice(("", "", "f", "i", "c"))))
         rich.append((with_junk(tuple(ch), rng.random() < 0.5), None))
     fam["x"] = rich
     for key in fam:
